@@ -28,13 +28,16 @@ TOL = 1e-8
 OPEN_STATEMENTS = [
     'NOT PROVED: the convergence order  ||circuit - exp(-iHt)|| = O(n_steps^-p), p = 1, 2, 4 for order 0, 1, 2 '
     '(Suzuki\'s theorem, real analysis, not in Mathlib).  Proved instead: its algebraic hypotheses (suzuki_condition[_real], '
-    'suzuki_palindrome, suzuki_times_sum).  The harness only *tests* error ratios under step doubling, with generous margins',
-    'NOT PROVED: exactness for commuting pieces as a statement about matrix exponentials (checked numerically: oracle)',
-    'NOT PROVED: controlled variants (identity on control 0, phase of the constant) — oracle only',
-    'lsn_asym/sym_step_is_product_formula cover the linear swap network steps (real hopping part, density-density part, '
-    'number operators: total coefficients per generator kind); the imaginary (oriented) hopping part, the mirrored order of the '
-    'symmetric step, SPLIT_OPERATOR and LOW_RANK emitters are covered by the product-formula correspondence / oracle only',
-    'that the real circuits equal the product of exponentials of the Model generator lists is a 1e-8 float comparison',
+    'suzuki_palindrome, suzuki_times_sum, lsn_sym_step_mirrored).  The harness only *tests* error ratios under step doubling',
+    'exact_when_commuting is proved for an abstract list of pairwise commuting generator matrices (Mathlib matrix exponential) and the '
+    'Model leaf times; that the generators emitted for a given Hamiltonian commute is an input (numerical oracle)',
+    'the step emitters (lsn*, so*, lr*, controlled) are proved to be product formulas at the level of generator kinds and total '
+    'coefficients (each pair / orbital once, or twice at half time, mirrored; one constant phase generator in controlled steps); that '
+    'the Model generator lists are what the real step classes emit is checked operation by operation (stream step-generators: kind, '
+    'qubit positions, angle, control), and that a gate is exp(-i angle generator) is the C14 gate correspondence',
+    'basis changes (bogoliubov_transform inside SPLIT_OPERATOR / LOW_RANK) are opaque markers in the Model; the operator identity '
+    'U n_i U^-1 = orbital number operator is the C14 conjugation oracle, and the unitary of whole circuits is a 1e-8 float comparison',
+    'controlled_structure is about the Model lists; identity on control 0 / phase of the constant on real circuits: oracle',
 ]
 ASSUMPTIONS = [
     'cirq.Circuit.unitary, scipy.linalg.expm, numpy are trusted numerical kernels (abs tol 1e-8 on <= 5 qubits)',
@@ -802,7 +805,182 @@ def hardening_stream(ctx, lad):
     return st
 
 
+# ------------------------------------------------------------------ generator lists vs the emitted operations
+
+def parse_step_ops(cirq, of, ops, pos, control, time):
+    """real operations of one trotter_step -> [(kind, position of the first system qubit, coefficient)] for the
+    generator gates; swaps are counted; everything else (basis changes) is returned as 'other'"""
+    out, nswaps, other, bad = [], 0, 0, []
+    for op in ops:
+        g, qs = op.gate, list(op.qubits)
+        ctl = False
+        if isinstance(g, cirq.ControlledGate):
+            if qs[0] != control:
+                bad.append('controlled gate not controlled on the control qubit: %s' % (op,))
+            g, qs, ctl = g.sub_gate, qs[1:], True
+        if g == of.FSWAP or g == cirq.SWAP:
+            nswaps += 1
+        elif isinstance(g, cirq.ISwapPowGate):
+            out.append((0, pos[qs[0]], (-g.exponent * math.pi / 2) / time, ctl))
+        elif isinstance(g, cirq.PhasedISwapPowGate) and control is not None and ctl or \
+                (isinstance(g, cirq.PhasedISwapPowGate) and control is None):
+            out.append((1, pos[qs[0]], (g.exponent * math.pi / 2) / time, ctl))
+        elif isinstance(g, cirq.CCZPowGate):
+            if qs[0] != control:
+                bad.append('CCZ not on the control qubit: %s' % (op,))
+            out.append((2, pos[qs[1]], (-g.exponent * math.pi) / time, True))
+        elif isinstance(g, cirq.CZPowGate):
+            if control is not None and control in qs:
+                q = [x for x in qs if x != control][0]
+                out.append(('diag', pos[q], (-g.exponent * math.pi) / time, True))
+            else:
+                out.append((2, pos[qs[0]], (-g.exponent * math.pi) / time, False))
+        elif isinstance(g, cirq.Rz):
+            if control is not None and qs[0] == control:
+                out.append((4, 0, (-g.exponent * math.pi) / time, True))
+            else:
+                out.append(('diag', pos[qs[0]], (-g.exponent * math.pi) / time, False))
+        else:
+            other += 1
+    return out, nswaps, other, bad
+
+
+def ops_stream(ctx):
+    import cirq
+    of = ctx.of
+    from openfermion.circuits.trotter.algorithms import linear_swap_network as lsn
+    from openfermion.circuits.trotter.algorithms import split_operator as so
+    from openfermion.circuits.trotter.algorithms import low_rank as lr
+    st = Stream('step-generators', 'ONE trotter_step of every step class (linear swap network: asymmetric / symmetric / controlled; '
+                'split operator: asymmetric / symmetric / controlled; low rank: asymmetric / controlled), operation by operation: gate '
+                'kind, position of the qubits, rotation angle / time and (controlled variants) the control qubit of every emitted '
+                'gate vs the generator list of the Lean Model (lsnAsymStep, lsnSymStep, …Controlled, soAsymStep, soSymStep, lrStep: '
+                'kind, position, coefficient; exact up to 1e-12); for split operator / low rank the density-density network and, in the '
+                'controlled variants, the orbital-energy gates are compared, the basis changes only counted; distinct = distinct cases')
+    rng = rng_for(ctx.seed, 'c15-ops')
+    big = ctx.tier == 'thorough' or ctx.drift
+
+    def cmp_entries(case, real, model, what):
+        st.float_comparisons += len(real)
+        if len(real) != len(model):
+            st.disagree('%s: number of generator gates' % what, case, len(real), len(model))
+            return
+        for i, (r_, m) in enumerate(zip(real, model)):
+            kind_ok = r_[0] == m[0] or (r_[0] == 'diag' and m[0] in (3, 5))
+            if not kind_ok or r_[1] != m[3] or not abs(r_[2] - float(frac(m[4]))) <= 1e-12 * max(1.0, abs(r_[2])):
+                st.disagree('%s: gate %d (kind, position, coefficient)' % (what, i), case, list(r_[:3]),
+                            [m[0], m[3], float(frac(m[4]))])
+                return
+
+    def ratm(M, f=lambda x: x):
+        return [[rat(Fraction(float(f(M[p, q])))) for q in range(M.shape[1])] for p in range(M.shape[0])]
+
+    sizes = [2, 3, 4, 5] if not big else [1, 2, 3, 4, 5, 6]
+    for n in sizes:
+        for pattern in ('mixed', 'imaginary', 'real'):
+            ham = patterned_dch(of, rng, n, pattern)
+            time = rng.choice([0.5, -0.75, 1.0])
+            qubits = [cirq.LineQubit(2 * i) for i in range(n)]
+            pos = {q: i for i, q in enumerate(qubits)}
+            control = cirq.LineQubit(99)
+            T, V = ham.one_body, ham.two_body
+            base = {'n': n, 'Tre': ratm(T, lambda x: x.real), 'Tim': ratm(T, lambda x: x.imag), 'V': ratm(V),
+                    'const': rat(Fraction(float(ham.constant)))}
+            for kind, cls, ctl in (('lsn-asym', lsn.AsymmetricLinearSwapNetworkTrotterStep, False),
+                                   ('lsn-sym', lsn.SymmetricLinearSwapNetworkTrotterStep, False),
+                                   ('lsn-asym-controlled', lsn.ControlledAsymmetricLinearSwapNetworkTrotterStep, True),
+                                   ('lsn-sym-controlled', lsn.ControlledSymmetricLinearSwapNetworkTrotterStep, True)):
+                case = {'step': kind, 'n': n, 'pattern': pattern, 'time': time, 'hamiltonian': ham_json('LSN', ham)}
+                st.case(case)
+                st.count('step:' + kind)
+                ok, ops = safe(st, '%s.trotter_step' % kind, case, lambda: list(cirq.flatten_op_tree(
+                    cls(ham).trotter_step(qubits, time, control if ctl else None))))
+                if not ok:
+                    continue
+                real, nswaps, other, bad = parse_step_ops(cirq, of, ops, pos, control if ctl else None, time)
+                for b in bad:
+                    st.violate('controlled step: ' + b[:120], case, {})
+                if ctl and not all(r_[3] for r_ in real):
+                    st.violate('controlled step emits an uncontrolled generator gate', case, {})
+                if other:
+                    st.violate('linear swap network step emits an unexpected gate', case, {'count': other})
+                nets = 1 if 'asym' in kind else 2
+                if nswaps != nets * n * (n - 1) // 2:
+                    st.violate('number of FSWAPs in the step', case, {'got': nswaps})
+                model = ctx.driver.one(dict(base, op='c15.step', kind=kind))
+                cmp_entries(case, real, model, kind)
+            # split operator
+            for kind, cls, ctl in (('so-asym', so.AsymmetricSplitOperatorTrotterStep, False),
+                                   ('so-sym', so.SymmetricSplitOperatorTrotterStep, False),
+                                   ('so-asym', so.ControlledAsymmetricSplitOperatorTrotterStep, True),
+                                   ('so-sym', so.ControlledSymmetricSplitOperatorTrotterStep, True)):
+                case = {'step': kind + ('-controlled' if ctl else ''), 'n': n, 'pattern': pattern, 'time': time,
+                        'hamiltonian': ham_json('SO', ham)}
+                st.case(case)
+                st.count('step:' + case['step'])
+                ok, res = safe(st, '%s.trotter_step' % case['step'], case, lambda: (lambda stp: (stp, list(
+                    cirq.flatten_op_tree(stp.trotter_step(qubits, time, control if ctl else None)))))(cls(ham)))
+                if not ok:
+                    continue
+                stp, ops = res
+                real, nswaps, other, bad = parse_step_ops(cirq, of, ops, pos, control if ctl else None, time)
+                for b in bad:
+                    st.violate('controlled step: ' + b[:120], case, {})
+                if nswaps != n * (n - 1) // 2:
+                    st.violate('number of SWAPs in the step', case, {'got': nswaps})
+                model = ctx.driver.one({'op': 'c15.step', 'kind': kind, 'n': n, 'V': ratm(V),
+                                        'E': [rat(Fraction(float(x))) for x in stp.orbital_energies]})
+                if ctl:
+                    real_c = [r_ for r_ in real if r_[0] == 2 or (r_[0] == 'diag' and r_[3])]
+                    model_c = [m for m in model if m[0] in (2, 5)]
+                    if not all(r_[3] for r_ in real_c):
+                        st.violate('controlled step emits an uncontrolled generator gate', case, {})
+                    const = [r_ for r_ in real if r_[0] == 4]
+                    if len(const) != 1 or abs(const[0][2] - ham.constant) > 1e-12 or real[-1][0] != 4:
+                        st.violate('controlled step: phase of the constant term', case, {'got': [c[2] for c in const]})
+                    cmp_entries(case, real_c, model_c, case['step'])
+                else:
+                    cmp_entries(case, [r_ for r_ in real if r_[0] == 2], [m for m in model if m[0] == 2], case['step'])
+    # low rank
+    for rep in range(budget(ctx.tier, 2, 5)):
+        ham = eightfold(of, rng, 2)
+        n = 4
+        time = rng.choice([0.5, -0.25])
+        qubits = [cirq.LineQubit(2 * i) for i in range(n)]
+        pos = {q: i for i, q in enumerate(qubits)}
+        control = cirq.LineQubit(99)
+        for cls, ctl in ((lr.AsymmetricLowRankTrotterStep, False), (lr.ControlledAsymmetricLowRankTrotterStep, True)):
+            case = {'step': 'lr' + ('-controlled' if ctl else ''), 'n': n, 'time': time, 'hamiltonian': ham_json('LR', ham)}
+            st.case(case)
+            st.count('step:' + case['step'])
+            ok, res = safe(st, '%s.trotter_step' % case['step'], case, lambda: (lambda stp: (stp, list(
+                cirq.flatten_op_tree(stp.trotter_step(qubits, time, control if ctl else None)))))(cls(ham)))
+            if not ok:
+                continue
+            stp, ops = res
+            cs = [np.asarray(m) for m in stp.scaled_density_density_matrices]
+            real, nswaps, other, bad = parse_step_ops(cirq, of, ops, pos, control if ctl else None, time)
+            for b in bad:
+                st.violate('controlled step: ' + b[:120], case, {})
+            if nswaps != len(cs) * n * (n - 1) // 2:
+                st.violate('number of SWAPs in the step', case, {'got': nswaps})
+            mo = ctx.driver.one({'op': 'c15.step', 'kind': 'lr', 'n': n, 'cs': [ratm(c) for c in cs],
+                                 'E': [rat(Fraction(float(x))) for x in stp.one_body_energies]})
+            perm = stp.step_qubit_permutation(list(qubits), control if ctl else None)[0]
+            if (list(perm) == list(qubits)[::-1]) != (mo['reverses'] and n > 1):
+                st.disagree('step_qubit_permutation of the low rank step', case, [pos[q] for q in perm], mo['reverses'])
+            if ctl:
+                real_c = [r_ for r_ in real if r_[0] == 2 or (r_[0] == 'diag' and r_[3])]
+                model_c = [m for m in mo['entries'] if m[0] in (2, 3, 5)]
+                if not all(r_[3] for r_ in real_c):
+                    st.violate('controlled step emits an uncontrolled generator gate', case, {})
+                cmp_entries(case, real_c, model_c, case['step'])
+            else:
+                cmp_entries(case, [r_ for r_ in real if r_[0] == 2], [m for m in mo['entries'] if m[0] == 2], case['step'])
+    return st
+
+
 def run(ctx):
     lad = Ladders(ctx.driver)
     return [recursion_stream(ctx), formula_stream(ctx, lad), symmetric_step_stream(ctx, lad), exactness_stream(ctx, lad),
-            hardening_stream(ctx, lad)]
+            hardening_stream(ctx, lad), ops_stream(ctx)]
